@@ -2,6 +2,9 @@ package main
 
 import (
 	"bytes"
+	"path/filepath"
+
+	"github.com/huderlem/poryscript/parser"
 	"crypto/sha1"
 	"os"
 	"os/exec"
@@ -18,6 +21,13 @@ func init() {
 type sessInput struct {
 	src string
 	o   Opts
+}
+
+var scratchDirs []string
+
+func unoptOf(o Opts) Opts {
+	o.Optimize = false
+	return o
 }
 
 func optsKey(o Opts) string {
@@ -98,6 +108,27 @@ func sessionPools(r *Rand, npools int) ([][]sessInput, int) {
 	bad1 := "script S {\n    if (flag(A) {\n}\n"
 	bad2 := "script S {\n    break\n}\n"
 	pools = append(pools, []sessInput{{constDef, base}, {constUse, base}, {bad1, base}, {bad2, base}})
+	// several clashing labels in different chunks: the error must be the same one every time
+	clash := "script Shop {\n    lock\n    if (flag(FLAG_A)) {\n        Shop_3:\n        one\n    } else {\n        Shop_4:\n        two\n    }\n    if (flag(FLAG_B)) {\n        Shop_1:\n        three\n    }\n    Shop_2:\n    release\n}\n"
+	clash2 := "script Shop {\n    while (flag(FLAG_A)) {\n        Shop_1:\n        if (flag(FLAG_B)) {\n            Shop_2:\n            Shop_5:\n        }\n    }\n    msgbox(\"x\")\n    Shop_Text_0:\n}\n"
+	pools = append(pools, []sessInput{{clash, base}, {clash2, base}, {clash, unoptOf(base)}, {clash2, unoptOf(base)}})
+	// the same font id with different glyph tables in two config files
+	if dir, err := newScratch("c17fonts"); err == nil {
+		scratchDirs = append(scratchDirs, dir)
+		mk := func(name string, w int) string {
+			ws := map[string]int{" ": w, "default": w}
+			fc := parser.FontConfig{DefaultFontID: "F", Fonts: map[string]parser.Fonts{"F": {Widths: ws, MaxLineLength: 100, NumLines: 2}}}
+			b, _ := jsonMarshal(fc)
+			pth := filepath.Join(dir, name)
+			os.WriteFile(pth, b, 0o644)
+			return pth
+		}
+		a, b2 := base, base
+		a.FontConfig, b2.FontConfig = mk("small.json", 5), mk("big.json", 10)
+		ftxt := "script A {\n    msgbox(format(\"aaaa bbbb cccc dddd eeee ffff\"))\n}\n"
+		ftxt2 := "text T {\n    format(\"aaaa bbbb cccc dddd\")\n}\n"
+		pools = append(pools, []sessInput{{ftxt, a}, {ftxt, b2}, {ftxt2, b2}, {ftxt2, a}})
+	}
 	sw1, sw2 := base, base
 	sw1.Switches = map[string]string{"GAME": "RUBY"}
 	sw2.Switches = map[string]string{"GAME": "EMERALD"}
@@ -145,6 +176,11 @@ func checkC17(c *Ctx) {
 		scheds = append(scheds, s)
 	}
 	pools, nHand := sessionPools(r, npools)
+	defer func() {
+		for _, d := range scratchDirs {
+			os.RemoveAll(d)
+		}
+	}()
 	var evs []map[string]interface{}
 	inputOf := map[string]sessInput{}
 	ncomp := 0
@@ -312,6 +348,39 @@ func checkC17(c *Ctx) {
 				srcOf[id] = srcAfter
 				recs = append(recs, map[string]interface{}{"id": id, "out1": outLines(*exp), "out2": outLines(after.Out), "err1": false, "err2": false})
 			}
+		}
+	}
+	// (c) text statements and scripts using format() in every parameter form: each text block equals the
+	// block of the statement compiled alone, whatever precedes it
+	fmtForms := []string{``, `, "1_latin_frlg"`, `, 100`, `, 208, "1_latin_frlg"`, `, "1_latin_rse", 150`, `, fontId="1_latin_frlg"`, `, numLines=3`,
+		`, 120, cursorOverlapWidth=20`, `, maxLineLength=90, fontId="1_latin_frlg"`}
+	fmtTexts := []string{"Please take good care of this rare POKeMON for me okay thanks a lot", "aaaaa aaaaa aaaaa aaaaa aaaaa aaaa\\pbbb ccc ddd eee",
+		"one two three four five six seven eight nine ten eleven twelve"}
+	nfmt := 60
+	if !c.Quick() {
+		nfmt = 1500
+	}
+	for i := 0; i < nfmt; i++ {
+		n := 2 + r.Intn(3)
+		var stmts []string
+		for k := 0; k < n; k++ {
+			stmts = append(stmts, fmt.Sprintf("text Fmt%d_%d {\n    format(\"%s\"%s)\n}\n", i, k, r.Pick(fmtTexts), r.Pick(fmtForms)))
+		}
+		o := Opts{Optimize: true, FontConfig: repoFontConfig}
+		whole := Compile(strings.Join(stmts, ""), o)
+		var parts []string
+		okAll := whole.Err == nil && whole.Panic == ""
+		for _, st := range stmts {
+			one := Compile(st, o)
+			if one.Err != nil || one.Panic != "" {
+				okAll = false
+			}
+			parts = append(parts, one.Out)
+		}
+		if okAll {
+			id := fmt.Sprintf("fmt%d", i)
+			srcOf[id] = strings.Join(stmts, "")
+			recs = append(recs, map[string]interface{}{"id": id, "out1": outLines(strings.Join(parts, "\n")), "out2": outLines(whole.Out), "err1": false, "err2": false})
 		}
 	}
 	bad, states, ok := runPairCases(c, "SameOut", "same.ndjson", recs)
